@@ -124,7 +124,10 @@ def origin(annotation: tp.Any) -> tp.Any:
     if not isbuiltintype(actual):
         actual = _check_generics(actual)
 
-    if iscallable(actual):
+    # (A class whose instances can be called is still that class, not a callable.)
+    if iscallable(actual) and not (
+        inspect.isclass(actual) and actual not in (type, abc_Callable)
+    ):
         actual = tp.Callable
 
     return actual
